@@ -29,6 +29,7 @@ type Mem struct {
 	// base
 	ufName   string
 	refBound func(*Term) *Term
+	lowRefs  bool // refBound is the entry bound (references at most top0)
 	// store
 	key []*Term
 	val *Term
@@ -122,6 +123,9 @@ func (m *Mem) Select(x *Exec, key []*Term) *Term {
 		r = tb.App(m.ufName, m.sort, key...)
 		if m.refBound != nil {
 			x.fact(m.refBound(r))
+			if m.lowRefs {
+				tb.MarkLow(r)
+			}
 		}
 	case mStore:
 		c := tb.True
